@@ -86,6 +86,28 @@ class _Rename(ast.NodeTransformer):
         return node
 
 
+class _SubstExpr(ast.NodeTransformer):
+    def __init__(self, mapping: Dict[str, ast.AST]) -> None:
+        self.mapping = mapping
+
+    def visit_Name(self, node: ast.Name):
+        if isinstance(node.ctx, ast.Load) and node.id in self.mapping:
+            return ast.copy_location(copy.deepcopy(self.mapping[node.id]), node)
+        return node
+
+
+def _module_level_chain(a: ast.AST, f: ast.FunctionDef) -> bool:
+    """`A.B.c` whose root name is bound nowhere in the enclosing function (so it is a module-level or builtin name)."""
+    r = a
+    while isinstance(r, ast.Attribute):
+        r = r.value
+    if not (isinstance(a, ast.Attribute) and isinstance(r, ast.Name)):
+        return False
+    local = {x.id for x in ast.walk(f) if isinstance(x, ast.Name) and isinstance(x.ctx, (ast.Store, ast.Del))}
+    local |= {x.arg for x in ast.walk(f) if isinstance(x, ast.arg)}
+    return r.id not in local
+
+
 def _bind_args(h: ast.FunctionDef, call: ast.Call) -> Optional[Dict[str, ast.AST]]:
     params = [a.arg for a in h.args.args] + [a.arg for a in h.args.kwonlyargs]
     npos = len(h.args.args)
@@ -161,12 +183,17 @@ def _inline_in_function(f: ast.FunctionDef) -> int:
                     stored = _stored_names(h)
                     ren = {nm: f'{h.name}__{nm}' for nm in (stored | set(bound))}
                     direct = {}
+                    expr_subst = {}
                     for p, a in bound.items():
                         # a parameter the helper never rebinds, given a plain outer name (which the helper cannot rebind
                         # either: no nonlocal) or a constant, is simply that name / constant
                         if p not in stored and isinstance(a, ast.Name):
                             ren[p] = a.id
                             direct[p] = a
+                        elif p not in stored and (isinstance(a, ast.Constant) or _module_level_chain(a, f)):
+                            # a constant, or an attribute chain rooted at a module-level name (`Enum.MEMBER.value`)
+                            direct[p] = a
+                            expr_subst[p] = a
                     for p, a in bound.items():
                         if p in direct:
                             continue
@@ -177,7 +204,10 @@ def _inline_in_function(f: ast.FunctionDef) -> int:
                     for hs in h.body:
                         if isinstance(hs, ast.Expr) and isinstance(hs.value, ast.Constant) and isinstance(hs.value.value, str):
                             continue  # docstring
-                        c = _Rename(ren).visit(copy.deepcopy(hs))
+                        c = _Rename({k: v for k, v in ren.items() if k not in expr_subst}).visit(copy.deepcopy(hs))
+                        if expr_subst:
+                            c = _SubstExpr(expr_subst).visit(c)
+                            ast.fix_missing_locations(c)
                         out.append(c)
                     count += 1
                     continue
@@ -208,4 +238,137 @@ def inline_local_procedures(tree: ast.Module) -> int:
     for n in ast.walk(tree):
         if isinstance(n, ast.FunctionDef):
             total += _inline_in_function(n)
+    return total
+
+
+# ---------------------------------------------------------------------------------------------------------------------
+# keyword dictionaries
+#
+#     options = dict(errors=errors, catch_first_error=catch_first_error)      f(t, errors=errors,
+#     ...                                                               ->      catch_first_error=catch_first_error,
+#     f(t, **options, iteration=iteration, **kwargs)                            iteration=iteration, **kwargs)
+#
+# A local bound exactly once to a dict display / `dict(...)` call with constant string keys, whose only uses are `**name`
+# in calls, is written out at those calls - provided every name the values mention has, at the call, the reaching
+# definitions it had where the dictionary was built (so evaluating the value at the call gives what was stored).
+
+def _dict_items(v: ast.AST):
+    """[(key or None for **, value expr)] of a dict display / dict(...) call with constant keys, else None."""
+    if isinstance(v, ast.Dict):
+        out = []
+        for k, val in zip(v.keys, v.values):
+            if k is None:
+                out.append((None, val))
+            elif isinstance(k, ast.Constant) and isinstance(k.value, str) and k.value.isidentifier():
+                out.append((k.value, val))
+            else:
+                return None
+        return out
+    if isinstance(v, ast.Call) and isinstance(v.func, ast.Name) and v.func.id == 'dict' and not v.args:
+        return [(k.arg, k.value) for k in v.keywords]
+    return None
+
+
+def _expand_kwargs_in_function(f: ast.FunctionDef) -> int:
+    starred = {}
+    for n in _own_nodes(f):
+        if isinstance(n, ast.Call):
+            for k in n.keywords:
+                if k.arg is None and isinstance(k.value, ast.Name):
+                    starred.setdefault(k.value.id, []).append((n, k))
+    if not starred:
+        return 0
+    params = {a.arg for a in f.args.posonlyargs + f.args.args + f.args.kwonlyargs}
+    if f.args.vararg:
+        params.add(f.args.vararg.arg)
+    if f.args.kwarg:
+        params.add(f.args.kwarg.arg)
+    cands = {}
+    for name in starred:
+        if name in params:
+            continue
+        binds = []
+        loads = []
+        bad = False
+        for n in ast.walk(f):
+            if isinstance(n, ast.Name) and n.id == name:
+                (binds if isinstance(n.ctx, (ast.Store, ast.Del)) else loads).append(n)
+            elif isinstance(n, (ast.FunctionDef, ast.AsyncFunctionDef, ast.ClassDef)) and n is not f and n.name == name:
+                bad = True
+            elif isinstance(n, (ast.Global, ast.Nonlocal)) and name in n.names:
+                bad = True
+        star_loads = {id(k.value) for (_c, k) in starred[name]}
+        if bad or len(binds) != 1 or any(id(l) not in star_loads for l in loads):
+            continue
+        asg = [s for s in _own_nodes(f) if isinstance(s, ast.Assign) and len(s.targets) == 1 and s.targets[0] is binds[0]]
+        if len(asg) != 1:
+            continue
+        items = _dict_items(asg[0].value)
+        if items is None:
+            continue
+        cands[name] = (asg[0], items)
+    if not cands:
+        return 0
+    from .cfg import CFG
+    from .flow import LocalFlow, node_expr_roots
+    try:
+        cfg = CFG(f)
+        lf = LocalFlow(cfg, sorted(params))
+    except Exception:
+        return 0
+
+    def node_of(x: ast.AST):
+        for n in cfg.nodes:
+            if n.ast is None:
+                continue
+            for root in node_expr_roots(n):
+                if isinstance(root, (ast.FunctionDef, ast.AsyncFunctionDef, ast.ClassDef)):
+                    continue
+                if any(y is x for y in ast.walk(root)):
+                    return n
+        return None
+
+    count = 0
+    for name, (asg, items) in cands.items():
+        dn = node_of(asg.value)
+        if dn is None:
+            continue
+        free = {y.id for (_k, v) in items for y in ast.walk(v) if isinstance(y, ast.Name) and isinstance(y.ctx, ast.Load)}
+        sites = []
+        ok = True
+        for (call, kw) in starred[name]:
+            cn = node_of(call)
+            if cn is None or dn.id not in cfg.reachable_from(cfg.entry) or cn.id not in cfg.reachable_from(dn.id):
+                ok = False
+                break
+            for nm in free:
+                if nm in lf.locals and lf.defs_reaching(dn.id, nm) != lf.defs_reaching(cn.id, nm):
+                    ok = False
+            # the dictionary itself must be the one built there
+            if lf.defs_reaching(cn.id, name) != frozenset([dn.id]):
+                ok = False
+            sites.append((call, kw))
+        if not ok:
+            continue
+        for (call, kw) in sites:
+            new = []
+            for k in call.keywords:
+                if k is kw:
+                    for (key, val) in items:
+                        nk = ast.keyword(arg=key, value=copy.deepcopy(val))
+                        ast.copy_location(nk, k)
+                        ast.fix_missing_locations(nk)
+                        new.append(nk)
+                else:
+                    new.append(k)
+            call.keywords = new
+            count += 1
+    return count
+
+
+def expand_keyword_dicts(tree: ast.Module) -> int:
+    total = 0
+    for n in ast.walk(tree):
+        if isinstance(n, ast.FunctionDef):
+            total += _expand_kwargs_in_function(n)
     return total
